@@ -47,11 +47,12 @@ DATA_TYPES = ('string', 'list', 'path')
 # which symbol types are acceptable where a symbol of the given (expected) type is referenced
 ACCEPTED = {
     'string': set(DATA_TYPES), 'path': {'path'},  # 'string' = any position that takes a STRING / list element
-    'text-source': {'text-source', 'string', 'list', 'path'},
+    'text-source': {'text-source', 'string'},
 }
 
 FIXTURE = ['file -rel-act f.txt = <<EOF', 'alpha', 'beta', 'EOF',
-           'dir -rel-act d = {', '  file g1.txt = \'x\'', '  dir sub = { file g2.txt }', '}']
+           'dir -rel-act d = {', '  file g1.txt = \'x\'', '  dir sub = { file g2.txt }', '}',
+           'file -rel-act m.txt', 'dir -rel-act md']
 
 ACT_DEFAULT = ['% echo hello']
 
@@ -114,19 +115,19 @@ _t('act', "% `P:echo` `s:'a b'` `s:\"c @[S_STR]@\"` `y.string:@[S_LIST]@` :> the
 
 # ----- instructions of several phases ------------------------------------------------------------
 _t('$', '$ echo hello', minimal=True)
-_t('$', '$ cat f.txt > out%N.txt')
+_t('$', '$ echo hello > out%N.txt')
 _t('%', '% `P:true`', minimal=True)
 _t('%', "% `P:echo` `s:a` `s:'b c'` `s:\"d\"` :> rest of the line")
 _t('%', '% `P:echo` `y.string:@[S_LIST]@` `y.string:@[S_STR]@` `y.string:@[S_PATH]@` -existing-file `p:data.txt`')
-_t('cd', 'cd -rel-act `p:d`', minimal=True)
-_t('cd', 'cd -rel-tmp `p:@[EXACTLY_ACT]@/d`')
+_t('cd', 'cd -rel-act `p:md`', minimal=True)
+_t('cd', 'cd `p:@[EXACTLY_ACT]@/md`')
 _t('copy', 'copy `p:data.txt`', minimal=True)
 _t('copy', 'copy `p:ddir` `p:dst%N`')
 _t('copy', 'copy -rel-home `p:data.txt` -rel-tmp `p:c%N.txt`')
 _t('copy', 'copy -rel-act `p:f.txt` -rel-act `p:sub%N/f-copy.txt`')
 _t('dir', 'dir `p:nd%N`', minimal=True)
 _t('dir', 'dir `p:nd%N` = { file `p:a.txt` }')
-_t('dir', 'dir -rel-act `p:d` += { file `p:more%N.txt` }')
+_t('dir', 'dir -rel-act `p:md` += { file `p:more%N.txt` }')
 _t('dir', 'dir -rel-tmp `p:nd%N` = dir-contents-of -rel-home `p:ddir`')
 _t('env', "env `s:VF_A` = `s:'value'`", minimal=True)
 _t('env', 'env -of act `s:VF_A` = `s:v`')
@@ -136,7 +137,7 @@ _t('env', 'env -of !act unset `s:VF_A`')
 _t('env', 'env `s:VF_A` = -contents-of `p:data.txt`')
 _t('file', 'file `p:nf%N.txt`', minimal=True)
 _t('file', "file `p:nf%N.txt` = `s:'abc'`")
-_t('file', "file -rel-act `p:f.txt` += `s:'more'`")
+_t('file', "file -rel-act `p:m.txt` += `s:'more'`")
 _t('file', 'file -rel-tmp `p:nf%N.txt` = -contents-of `p:data.txt`')
 _t('file', 'file `p:nf%N.txt` = -stdout-from % `P:echo` `s:hi`')
 _t('file', 'file `p:nf%N.txt` = <<EOF\nline one\nline @[EXACTLY_ACT]@ two\nEOF')
@@ -196,7 +197,7 @@ _forms('text-matcher', 'stdout', 'stdout ', [
     "! equals `s:'x'`",
     "! == `s:'x'`",
     'matches `r:hel+o`',
-    "matches -full `r:'hello.'`",
+    "matches -full `r:'hello\\s'`",
     '~ -full -ignore-case `r:HEL+O\\s`',
     '~ -ignore-case `r:"H.L"`',
     'every line : contents matches `r:l`',
@@ -225,8 +226,8 @@ _forms('line-matcher', 'stdout', 'stdout every line : ', [
     'line-num >= `i:1`',
     'constant true',
     '! constant false',
-    'constant false || line-num == `i:1`',
-    'constant true && contents matches `r:h`',
+    '( constant false || line-num == `i:1` )',
+    '( constant true && contents matches `r:h` )',
     '`y.line-matcher:S_LM`',
     '`y.line-matcher:@[S_LM]@`',
     '( constant true )',
@@ -264,7 +265,7 @@ _forms('files-matcher', 'dir-contents', 'dir-contents -rel-act `p:d` : ', [
     '! is-empty',
     'matches { `p:g1.txt` }',
     'matches -full {\n `p:g1.txt` : type file\n `p:sub` : type dir\n}',
-    'matches { `p:sub/g2.txt` : type file && contents is-empty\n `p:sub` }',
+    '-recursive matches { `p:sub/g2.txt` : type file && contents is-empty\n `p:sub` }',
     'matches `y.files-condition:S_FC`',
     'matches `y.files-condition:@[S_FC]@`',
     'matches ( { `p:g1.txt` } )',
@@ -295,9 +296,9 @@ _forms('text-transformer', 'stdout', 'stdout -transformed-by ', [
     'replace -preserve-new-lines -ignore-case `r:X` `R:"y"`',
     'char-case -to-lower', 'char-case -to-upper',
     'strip', 'strip -trailing-space', 'strip -trailing-new-lines',
-    'run % `P:cat`', 'run -ignore-exit-code % `P:cat`', 'run `p:prog`',
+    '( run % `P:cat` )', '( run -ignore-exit-code % `P:cat` )', '( run `p:prog` )',
     'replace-test-case-dirs', 'identity',
-    'identity | char-case -to-upper | char-case -to-lower',
+    '( identity | char-case -to-upper | char-case -to-lower )',
     '`y.text-transformer:S_TT`', '`y.text-transformer:@[S_TT]@`', '( identity )', '( identity | strip )',
 ], act=A, suffix=' ! is-empty')
 
@@ -305,7 +306,7 @@ _forms('text-transformer', 'stdout', 'stdout -transformed-by ', [
 _forms('text-source', 'file', 'file `p:ts%N.txt` = ', [
     '`s:naked`', '`s:"soft @[S_STR]@"`', "`s:'hard'`", '`s:a"b"\'c\'@[S_STR]@`',
     ':> text until end of line @[S_STR]@',
-    '`y.text-source:@[S_TS]@`', '`y.string:@[S_STR]@`', '`y.string:@[S_LIST]@`', '`y.string:@[S_PATH]@`',
+    '`y.text-source:@[S_TS]@`', '`y.text-source:@[S_STR]@`', '`y.string:"@[S_LIST]@"`', '`y.string:"@[S_PATH]@"`',
     '-contents-of -rel-home `p:data.txt`', '-contents-of -rel-act `p:f.txt`',
     '-stdout-from % `P:echo` `s:hi`', '-stderr-from -ignore-exit-code % `P:true`',
     '-stdout-from $ echo hello',
@@ -448,7 +449,8 @@ REPLACEMENTS = ['(', ')', '=', ':', '!', '&&', '||', '|', '{', '}', '[', ']', '-
                 '-rel-here', '-rel', '-stdin', '-transformed-by', '-ignore-case', '-full', '%', '$', '@', '-python',
                 '-existing-file', '-contents-of', '-stdout-from', 'unset', 'none', '0', '-1', '+=', '~', '==',
                 '@[', ']@', '@[]@', '@[S_STR', "é", '\u2028', '[assert]', '-recursive', 'constant', 'run', 'file', 'dir',
-                '-line-nums', '-at', '-of', '-path-arg-marker', '-min-depth']
+                '-line-nums', '-at', '-of', '-path-arg-marker', '-min-depth', 'a\x00b', '\x0c', '\x85', 'a\rb', '\ufeff',
+                '\x1b[0m', '\t']
 
 # integer expressions.  BAD: do not evaluate to a Python int (harness re-checks this with a restricted eval)
 BAD_INTS = ['1//0', '1%0', '9//(1-1)', '1/1', '1.5', '1e3', 'a', '1+', '(1', '1)', '+', "''", "'1 2'", '0x', '1_', '08',
@@ -461,7 +463,7 @@ EXTREME_INTS = ['0', '-1', '-0', '+1', '99999999999999999999', '-999999999999999
 BAD_REGEXES = ["'a('", "'a)'", "'[a'", "'*a'", "'a**'", "'a{2,1}'", "'(?P<n>a)(?P<n>b)'", "'(?<=a+)b'", "'\\1'",
                "'(?P=nosuch)'", "'(?z)'", "'\\'", "'[z-a]'", "'(?L)a'", "'a{99999999999999999999}'", "'\\N{nosuchname}'",
                "'(?#'", "'\\x1'", "'(?i'", "'+'", "'?'", "'(?P<1>a)'", "'(?P<n'", "'\\u12'", "'(?au)a'", "'a{1,2}{3}'",
-               "'(?<!a*)b'", "'(?(1)a|b|c)'", "'(?(9)a)'", "'[[:alpha:]'", "'(?-i'", "'\\g<1>\\'"]
+               "'(?<!a*)b'", "'(?(1)a|b|c)'", "'(?(9)a)'", "'(?-i'", "'\\g<1>\\'"]
 EXTREME_REGEXES = ["''", "'(a*)*b'", "'a{0,65535}'", "'" + '(' * 40 + 'a' + ')' * 40 + "'", "'.{1000}'",
                    "'" + '(' * 3000 + ')' * 3000 + "'", "'" + 'a?' * 200 + "'", "'[^\\W\\d_]'", "'(?s).*'", "'\\Z'",
                    "'" + 'x' * 10000 + "'", "'(?x) a b # comment'", "'\\b\\B'", "'[\\]]'", "'$^'", "'|'", "'(?:)'",
@@ -537,21 +539,27 @@ def char_truncations(text, every=1):
             yield 'truncate', 'after-line-end-%d' % c, text[:c + 1]
 
 
+_REF_RE = re.compile(r'@\[(\w+)\]@')
+
+
 def wrong_type_symbols(tok, allow_case_symbols=True):
     """-> [(replacement text, symbol type, definitely_wrong)]"""
     out = []
     if tok.kind == 'sym':
         expected = tok.stype
         accepted = ACCEPTED.get(expected, {expected})
-        bare = not tok.text.startswith('@[')
+        m = _REF_RE.search(tok.text)
+        current = m.group(1) if m else tok.text
         for typ, name, _ in SYMBOLS:
-            if name == tok.text.strip('@[]'):
+            if name == current:
                 continue
-            txt = name if bare else '@[%s]@' % name
+            txt = tok.text.replace(current, name)  # keeps the form: bare name, @[..]@, or quoted @[..]@
             out.append((txt, typ, typ not in accepted))
     elif tok.kind in ('int', 'regex', 'repl', 'glob', 'path', 'str', 'prog'):
+        # these positions take a STRING: string, list and path symbols are fine, a symbol of a logic type is a
+        # mistake.  Not claimed for kind 'str' (may be a TEXT-SOURCE position, or a marker that is taken literally)
         for typ, name, _ in SYMBOLS:
-            out.append(('@[%s]@' % name, typ, typ not in DATA_TYPES))
+            out.append(('@[%s]@' % name, typ, typ not in DATA_TYPES and tok.kind != 'str'))
     if not allow_case_symbols:
         out = [('@[UNDEFINED_SYMBOL]@', 'undefined', True), ('@[EXACTLY_HOME]@', 'path', False)] if out else []
     return out
@@ -568,7 +576,7 @@ def kind_values(kind):
     if kind == 'glob':
         return [('odd-glob', v) for v in GLOBS]
     if kind in ('path', 'str'):
-        return [('odd-string', v) for v in ODD_STRINGS]
+        return [('nul-char', 'a\x00b')] + [('odd-string', v) for v in ODD_STRINGS]
     return []
 
 
@@ -608,3 +616,48 @@ def assemble(phase_blocks: dict, mention_text: str, need_fixture=True, cut_after
             lines.append('[%s]' % ph)
             emit_block(ph, phase_blocks[ph])
     return '\n'.join(lines) + '\n', spans
+
+
+# ---------------------------------------------------------------------------------------------
+# Whole-file forms and extreme structures (valid UTF-8 throughout)
+# ---------------------------------------------------------------------------------------------
+def file_forms(text):
+    yield 'crlf', text.replace('\n', '\r\n')
+    yield 'cr-only', text.replace('\n', '\r')
+    yield 'bom', '\ufeff' + text
+    yield 'tabs', text.replace(' ', '\t')
+    yield 'trailing-space', text.replace('\n', '  \n')
+    yield 'no-final-newline', text.rstrip('\n')
+    yield 'form-feed-lines', text.replace('\n', '\n\x0c\n')
+    yield 'nul-line', text + '\x00\n'
+    yield 'indented', '\n'.join('   ' + l for l in text.split('\n'))
+
+
+def extreme_structures():
+    """(name, case text).  Nesting beyond Python's recursion limit must still end in a documented outcome."""
+    for n in (50, 400, 2000):
+        yield 'parens-%d' % n, '[assert]\nexit-code ' + '( ' * n + '== 0' + ' )' * n + '\n'
+        yield 'negations-%d' % n, '[assert]\nexit-code ' + '! ' * n + '== 0\n'
+        yield 'composition-%d' % n, '[setup]\nfile f.txt = "x" -transformed-by ( ' + 'identity | ' * n + 'identity )\n'
+        yield 'files-source-nesting-%d' % n, '[setup]\ndir d = ' + '{ dir a = ' * n + '{ }' + ' }' * n + '\n'
+        yield 'unclosed-parens-%d' % n, '[assert]\nexit-code ' + '( ' * n + '== 0\n'
+        yield 'unclosed-braces-%d' % n, '[setup]\ndir d = ' + '{ dir a = ' * n + '\n'
+    yield 'long-list', '[setup]\ndef list L = ' + 'a ' * 20000 + '\n'
+    yield 'long-heredoc', '[setup]\nfile f.txt = <<EOF\n' + 'line\n' * 20000 + 'EOF\n'
+    yield 'long-heredoc-unterminated', '[setup]\nfile f.txt = <<EOF\n' + 'line\n' * 20000
+    yield 'long-token', '[setup]\nfile f.txt = ' + 'x' * 200000 + '\n'
+    yield 'long-quoted-unterminated', "[setup]\nfile f.txt = '" + 'x' * 200000 + '\n'
+    yield 'many-instructions', '[setup]\n' + 'env A = b\n' * 3000
+    yield 'long-conjunction', '[assert]\nexit-code ' + '== 0 && ' * 3000 + '== 0\n'
+    yield 'dangling-operator', '[assert]\nexit-code ' + '== 0 && ' * 3000 + '\n'
+    yield 'empty-file', ''
+    yield 'blank-file', '\n\n  \n'
+    yield 'only-comment', '# nothing\n'
+    yield 'only-header', '[assert]'
+    yield 'headers-only', ''.join('[%s]\n' % p for p in PHASE_ORDER)
+    yield 'many-headers', '[setup]\n' * 3000
+    yield 'long-header', '[' + 'x' * 100000 + ']\n'
+    yield 'long-unknown-instruction', '[setup]\n' + 'y' * 100000 + ' arg\n'
+    yield 'symbol-chain-300', ('[setup]\ndef string A0 = x\n' + ''.join('def string A%d = @[A%d]@\n' % (i + 1, i)
+                                                                         for i in range(300))
+                               + 'file f.txt = @[A300]@\n')
